@@ -1,6 +1,7 @@
 Require Extraction.
 Require Import ExtrOcamlBasic.
-From Herc Require Import Base.Conv Plumbing.Renames.
+From Herc Require Import Base.Conv Plumbing.Renames Plumbing.RenamesFast.
 Extraction "c13_model.ml" conv_anchor less old_less hash_eqb entry_eqb change_eqb sizes_close effective_threshold
   mods adds dels malformed scan_with scan stage1 cap_of is_small not_small match_a match_b stage3 consume
-  repairing_b exact_b wf_hashes_b.
+  repairing_b exact_b wf_hashes_b
+  repairing_fast_b exact_at touches hashes_of.
